@@ -18,9 +18,10 @@ try:
     NOT_BUILT = json.load(open(os.path.join(HERE, "not_claimed.json")))
 except FileNotFoundError:
     pass
+CLAIMED = json.load(open(os.path.join(HERE, "claimed.json")))
 for pid in ids:
     path = os.path.join(HERE, "props", pid + ".py")
-    if not os.path.exists(path):
+    if pid not in CLAIMED or not os.path.exists(path):
         na.append({"property_id": pid, "reason": NOT_BUILT.get(pid, "not claimed in this revision: model and theorems for it are not built yet (see DESIGN.md section 3 for the plan); the technique itself applies")})
         continue
     m = importlib.import_module("props." + pid)
